@@ -8,11 +8,12 @@ executed) NetQASM subroutine.
 
 from __future__ import annotations
 
+from copy import copy
 from typing import Dict, List, Optional, Tuple, Union
 
 from netqasm.lang import encoding
-from netqasm.lang.instr import DebugInstruction, NetQASMInstruction
-from netqasm.lang.operand import Operand, Template
+from netqasm.lang.instr import DebugInstruction, NetQASMInstruction, core
+from netqasm.lang.operand import Immediate, Operand, Template
 from netqasm.lang.version import NETQASM_VERSION
 from netqasm.util.string import rspaces
 
@@ -126,7 +127,41 @@ class Subroutine:
             netqasm_version=self.netqasm_version,
             app_id=self.app_id,
         )
-        return [metadata] + [instr.serialize() for instr in self.instructions]
+        instrs = self._encoded_instructions()
+        return [metadata] + [instr.serialize() for instr in instrs]
+
+    def _encoded_instructions(self) -> List[NetQASMInstruction]:
+        """The instructions as they are encoded. Debug comments (`DebugInstruction`) take no
+        space in the encoding, so they are left out and every branch target is moved to the
+        position its instruction gets without them."""
+        if not any(isinstance(instr, DebugInstruction) for instr in self.instructions):
+            return self.instructions
+
+        new_index: Dict[int, int] = {}
+        num_encoded = 0
+        for i, instr in enumerate(self.instructions):
+            new_index[i] = num_encoded
+            if not isinstance(instr, DebugInstruction):
+                num_encoded += 1
+        new_index[len(self.instructions)] = num_encoded
+
+        instrs: List[NetQASMInstruction] = []
+        for instr in self.instructions:
+            if isinstance(instr, DebugInstruction):
+                continue
+            if isinstance(
+                instr,
+                (
+                    core.JmpInstruction,
+                    core.BranchUnaryInstruction,
+                    core.BranchBinaryInstruction,
+                ),
+            ):
+                target = instr.line.value
+                instr = copy(instr)
+                instr.line = Immediate(new_index.get(target, target))
+            instrs.append(instr)
+        return instrs
 
     def __bytes__(self):
         return b"".join(bytes(cstruct) for cstruct in self.cstructs)
